@@ -120,6 +120,7 @@ func (p *parkRepl) Set(key, value string) {
 		return
 	}
 	*p.n++
+	p.rig.checkSelected(value)
 	// the window between choosing a backend and counting the request
 	p.rig.c.Probe("parked-in-select/forward-window")
 	p.rig.c.Park(fmt.Sprintf("hook.selected/r%s#%d", p.id, *p.n), "req:"+p.id)
@@ -397,6 +398,37 @@ func (t *simRT) RoundTrip(req *http.Request) (resp *http.Response, err error) {
 		Body: &endBody{Reader: strings.NewReader(body), end: end}, Request: req}, nil
 }
 
+// checkSelected runs at the instant a backend was selected (Replacer.Set is
+// called right after Select, nothing else has run in between): a backend with
+// max_fails unexpired failures, an unhealthy one or a full one must not be chosen.
+func (r *poolRig) checkSelected(name string) {
+	c := r.c
+	now := c.Now()
+	for i, h := range r.hosts {
+		if h.Name != name {
+			continue
+		}
+		unexp := 0
+		if r.failTimeout > 0 {
+			for _, t := range r.failLog[i] {
+				if now < t+r.failTimeout {
+					unexp++
+				}
+			}
+		}
+		sig := fmt.Sprintf("pool=%d", r.n)
+		if unexp >= r.maxFails && r.failTimeout > 0 {
+			c.Violate("C14/selected-while-down", sig, "backend %d was selected although it has %d unexpired failures (max_fails %d, fail_timeout %s)", i, unexp, r.maxFails, r.failTimeout)
+		}
+		if atomic.LoadInt32(&h.Unhealthy) != 0 {
+			c.Violate("C14/selected-while-down", sig+"/unhealthy", "backend %d was selected although the health check marked it unhealthy", i)
+		}
+		if r.maxConns > 0 && atomic.LoadInt64(&h.Conns) >= int64(r.maxConns) {
+			c.Violate("C14/selected-while-full", sig, "backend %d was selected with %d requests in flight, max_conns %d", i, atomic.LoadInt64(&h.Conns), r.maxConns)
+		}
+	}
+}
+
 func (r *poolRig) reqByID(id string) *preq {
 	for _, q := range r.reqs {
 		if fmt.Sprint(q.id) == id {
@@ -599,14 +631,38 @@ func (r *poolRig) addReq(i int) {
 		}
 		q.cancel = st.Draw(5) == 0
 	}
-	req := fmt.Sprintf("POST %s HTTP/1.1\r\nHost: p.test\r\nX-Req: %d\r\nContent-Length: %d\r\nConnection: close\r\n", q.uri, i, blen)
+	// a third of the bodies travel chunked (no Content-Length on the way in)
+	chunked := blen > 0 && st.Draw(3) == 0
+	req := fmt.Sprintf("POST %s HTTP/1.1\r\nHost: p.test\r\nX-Req: %d\r\nConnection: close\r\n", q.uri, i)
+	if chunked {
+		req += "Transfer-Encoding: chunked\r\n"
+	} else {
+		req += fmt.Sprintf("Content-Length: %d\r\n", blen)
+	}
 	if q.hdrKey != "" {
 		req += "X-Key: " + q.hdrKey + "\r\n"
 	}
 	req += "\r\n"
-	all := append([]byte(req), q.body...)
+	all := []byte(req)
+	if chunked {
+		rest := q.body
+		for len(rest) > 0 {
+			n := 1 + st.Draw(2000)
+			if n > len(rest) {
+				n = len(rest)
+			}
+			all = append(all, []byte(fmt.Sprintf("%x\r\n", n))...)
+			all = append(all, rest[:n]...)
+			all = append(all, '\r', '\n')
+			rest = rest[n:]
+		}
+		all = append(all, []byte("0\r\n\r\n")...)
+		r.c.Probe("chunked-request-body")
+	} else {
+		all = append(all, q.body...)
+	}
 	if blen > 0 && st.Draw(2) == 0 {
-		cut := len(req) + st.Draw(blen)
+		cut := len(req) + st.Draw(len(all)-len(req))
 		q.segs = [][]byte{all[:cut], all[cut:]}
 	} else {
 		q.segs = [][]byte{all}
